@@ -94,6 +94,9 @@ func init() {
 func init() {
 	IDByName["Golang"] = tls.HelloGolang
 	IDByName["Custom"] = tls.HelloCustom
+	IDByName["Randomized"] = tls.HelloRandomized
+	IDByName["Randomized-ALPN"] = tls.HelloRandomizedALPN
+	IDByName["Randomized-NoALPN"] = tls.HelloRandomizedNoALPN
 }
 
 // LookupID resolves a ClientHelloID by its Str() name. "Name@n" gives the (randomized) ID a PRNG seed derived
@@ -399,6 +402,7 @@ type HSResult struct {
 	Srv          *tls.Conn
 	CWire, SWire []byte
 	EchoOK       bool
+	HSOK         bool // the client's Handshake() returned nil (CErr may still report a later echo failure)
 	CEKM, SEKM   [][]byte
 }
 
@@ -486,6 +490,7 @@ func RunHandshake(ccfg, scfg *tls.Config, id tls.ClientHelloID, o HSOpts) (r HSR
 		}
 		r.CErr = uc.Handshake()
 		if r.CErr == nil {
+			r.HSOK = true
 			r.CS = uc.ConnectionState()
 			for _, q := range o.EKM {
 				b, err := r.CS.ExportKeyingMaterial(q.Label, q.Context, q.Len)
